@@ -422,3 +422,89 @@ func harnessC08seq() {
 	vCover("established")
 	vDone()
 }
+
+// harnessC08sameID: both sides count their IDs from 1, so the same number is routinely in use in both directions.
+// Two establishments with ONE symbolic ID, the second in the opposite direction, starting a symbolic pause (0..10 s)
+// after the first completed, each accept-first or dial-first with a symbolic gap: timers armed by the first are
+// still running during the second. Canonical schedule, symbolic clock.
+func harnessC08sameID() {
+	mainLn = &vListener{q: make(chan net.Conn, 4)}
+	lg := vLogger{}
+	sm := grpcmux.NewGRPCServerMuxer(lg, mainLn)
+	cm, err := grpcmux.NewGRPCClientMuxer(lg, vAddr{})
+	vAssume(err == nil)
+	h2p, p2h := make(chan *plugin.ConnInfo, 8), make(chan *plugin.ConnInfo, 8)
+	hb := newGRPCBroker(&vStreamer{out: h2p, in: p2h}, nil, UnixSocketConfig{}, nil, cm)
+	pb := newGRPCBroker(&vStreamer{out: p2h, in: h2p}, nil, UnixSocketConfig{}, nil, sm)
+	go func() { vDaemon(); hb.Run() }()
+	go func() { vDaemon(); pb.Run() }()
+	mainErr := false
+	mainGot := 0
+	go func() {
+		vDaemon()
+		for {
+			_, err := sm.Accept()
+			if err != nil {
+				mainErr = true
+				return
+			}
+			mainGot++
+		}
+	}()
+	id := vNondetU32("id")
+	acc, dia := pb, hb
+	if vChoice(2) == 1 {
+		vCover("host-accepts-first")
+		acc, dia = hb, pb
+	} else {
+		vCover("plugin-accepts-first")
+	}
+	base := int64(0)
+	for e := 0; e < 2; e++ {
+		gap := vNondetTime("gap")
+		vAssume(gap > 0 && gap < 5*sec)
+		tA, tD := base, base+gap
+		if vChoice(2) == 1 {
+			vCover("dial-first")
+			tA, tD = base+gap, base
+		} else {
+			vCover("accept-first")
+		}
+		var got, dialed net.Conn
+		var aerr, derr error
+		doneA, doneD := make(chan struct{}), make(chan struct{})
+		a, d := acc, dia
+		go func() {
+			vSleepUntil(tA)
+			ln, err := a.Accept(id)
+			if err == nil {
+				got, err = ln.Accept()
+			}
+			aerr = err
+			close(doneA)
+		}()
+		go func() {
+			vSleepUntil(tD)
+			dialed, derr = d.muxDial(id)("", 0)
+			close(doneD)
+		}()
+		<-doneD
+		vAssert(derr == nil, "C08: dial for a correctly established ID succeeds (same number in use in the other direction)")
+		select {
+		case <-doneA:
+		case <-time.After(6 * time.Second):
+			vAssert(false, "C08: the ID's listener receives the dialled stream (same number in use in the other direction)")
+		}
+		vAssert(aerr == nil, "C08: the ID's listener accepts")
+		vAssert(got.(*yamux.Stream) == strmPeer[dialed.(*yamux.Stream)], "C08: stream dialled for n is delivered by n's listener")
+		vAssert(!mainErr && mainGot == 0, "C08: a brokered stream is never handed to the main listener and the main accept loop keeps working")
+		vAssert(!sessionClosed, "C08: the session stays open (main and earlier connections keep working)")
+		pause := vNondetTime("pause")
+		vAssume(pause >= 0 && pause <= 10*sec)
+		base = vNow() + pause
+		vSleepUntil(base)
+		acc, dia = dia, acc
+	}
+	vCover("established")
+	vDone()
+}
